@@ -29,7 +29,7 @@ Definition render_outcome (o : outcome) : json :=
   end.
 
 (* the specification's view of the shipped parser modules *)
-Definition spec_env0 : spec_env := {| se_comp_name := fun _ _ => None |}.
+Definition spec_env0 : spec_env := {| se_comp_name := fun _ _ => None; se_error_details := fun _ _ => [] |}.
 Definition spec_plugins0 : spec_plugins :=
   {| sp_proc_desc := fun creator proc =>
        if text_eqb creator (L "O") || text_eqb creator (L "o") then
@@ -79,6 +79,48 @@ Definition run_pel (cmd : text) (args : list bytes) : option text :=
     | Some t => Some (render (JStr (pretty_print (nat_arg (arg 0 args)) t)))
     | None => Some (L "null")
     end
+  else if is_cmd cmd (L "decode_reg") then
+    (* args: flags, data, number of component-name triples, triples (creator, "%04X" component, name), then registry entries:
+       has_reason reason has_type type message has_args nargs args.. nwords (num has_desc desc source).. *)
+    let tx (b : bytes) := match utf8_decode b with Some x => x | None => [] end in
+    let flag1 (b : bytes) := negb (be_val b 0 =? 0) in
+    let fix take_texts (n : nat) (l : list bytes) : list text * list bytes :=
+      match n, l with
+      | S k, x :: t => let '(a, r) := take_texts k t in (tx x :: a, r)
+      | _, _ => ([], l)
+      end in
+    let fix take_words (n : nat) (l : list bytes) : list reg_word * list bytes :=
+      match n, l with
+      | S k, num :: hd :: d :: src :: t =>
+          let '(a, r) := take_words k t in
+          ({| rw_num := tx num; rw_desc := if flag1 hd then Some (tx d) else None; rw_source := tx src |} :: a, r)
+      | _, _ => ([], l)
+      end in
+    let fix entries (fuel : nat) (l : list bytes) : list reg_pel :=
+      match fuel, l with
+      | S f, hr :: r :: ht :: t :: m :: ha :: na :: rest =>
+          let '(args_, rest1) := take_texts (N.to_nat (be_val na 0)) rest in
+          match rest1 with
+          | nw :: rest2 =>
+              let '(ws, rest3) := take_words (N.to_nat (be_val nw 0)) rest2 in
+              {| r_reason := if flag1 hr then Some (tx r) else None; r_type := if flag1 ht then Some (tx t) else None;
+                 r_message := tx m; r_args := if flag1 ha then Some args_ else None; r_words := ws |} :: entries f rest3
+          | [] => []
+          end
+      | _, _ => []
+      end in
+    let ncomp := N.to_nat (be_val (arg 2 args) 0) in
+    let fix comps (n : nat) (l : list bytes) : list (text * text * text) * list bytes :=
+      match n, l with
+      | S k, c :: k4 :: nm :: t => let '(a, r) := comps k t in ((tx c, tx k4, tx nm) :: a, r)
+      | _, _ => ([], l)
+      end in
+    let '(cl, rest) := comps ncomp (skipn 3 args) in
+    let fx := {| fx_registry := entries (length rest) rest;
+                 fx_comp := fun cr k4 => match List.find (fun x => let '(c, k, _) := x in text_eqb c cr && text_eqb k k4) cl with
+                                         | Some (_, _, nm) => Some nm | None => None end;
+                 fx_ud := fun _ => None; fx_src := fun _ => None; fx_co := fun _ => None |} in
+    Some (render (render_outcome (decode (env_fx fx) (cfg_of (arg 0 args)) (fun _ => true) (arg 1 args))))
   else if is_cmd cmd (L "decode_fx") then
     (* args: flags, data, then fixture quadruples: kind, module name, behaviour, text *)
     let fix quads (l : list bytes) : list (N * text * N * text) :=
